@@ -807,6 +807,7 @@ type certBuilder interface {
 // It dumps the certificate the moment the real flow returns it (before anything else can touch it).
 type caseFlow struct {
 	real   certBuilder
+	base   *fakeBase
 	params *aggsendertypes.CertificateBuildParams
 	built  *agglayertypes.Certificate
 	final  *XCert
@@ -837,10 +838,11 @@ func (fakeEpoch) String() string                                    { return "ve
 func newFlow(in In, sg *recSigner) *caseFlow {
 	base := &fakeBase{cert: toCert(in.Cert)}
 	if in.Scheme == "pp" {
-		return &caseFlow{real: flows.NewPPFlow(nopLog{}, base, nil, nil, nil, sg, false, 0),
+		return &caseFlow{real: flows.NewPPFlow(nopLog{}, base, nil, nil, nil, sg, false, 0), base: base,
 			params: &aggsendertypes.CertificateBuildParams{CertificateType: aggsendertypes.CertificateTypePP, FromBlock: 1, ToBlock: 2, CreatedAt: 1}}
 	}
 	return &caseFlow{
+		base: base,
 		real: flows.NewAggchainProverFlow(nopLog{}, flows.NewAggchainProverFlowConfigDefault(), base, nil, nil, nil, nil, nil, nil, sg, nil, nil),
 		params: &aggsendertypes.CertificateBuildParams{
 			CertificateType: aggsendertypes.CertificateTypeFEP, FromBlock: 1, ToBlock: 2, CreatedAt: 1,
@@ -878,6 +880,21 @@ func run(e *env, in In) Out {
 	flow := newFlow(in, sg)
 	e.sub.last = nil
 	stored := ""
+	{
+		// an EARLIER attempt of the same flow object with the same build parameters object (in the aggchain-prover flow: the aggchain
+		// proof that is stored with a certificate and handed over again when its replacement is built) over DIFFERENT content: the
+		// certificate that ended in error. Whatever it leaves behind must not show in the attempt that is observed.
+		prev := toCert(in.Cert)
+		prev.NewLocalExitRoot[0] ^= 0x5a
+		prev.PrevLocalExitRoot[31] ^= 0xa5
+		flow.base.cert = prev
+		func() {
+			defer func() { _ = recover() }()
+			_, _ = flow.real.BuildCertificate(ctx, flow.params)
+		}()
+		flow.base.cert = toCert(in.Cert)
+		sg.calls, sg.outs = nil, nil
+	}
 
 	if in.Cert.H < 1<<62 {
 		// the REAL AggSender.sendCertificate: real flow sign step, real gRPC client (request captured), json.Marshal, real SQLite storage
